@@ -321,7 +321,7 @@ class Interp:
 
     def st_ClassDef(self, node, frame):
         bases = []
-        is_protocol = is_namedtuple = False
+        is_protocol = is_namedtuple = is_enum = False
         for b in node.bases:
             bv = self.eval(b, frame)
             if isinstance(bv, GenericAlias):
@@ -332,6 +332,11 @@ class Interp:
                 if bv.name == "NamedTuple":
                     is_namedtuple = True
                 continue
+            if isinstance(bv, ExtClass) and bv.name == "Enum":
+                is_enum = True
+                continue
+            if isinstance(bv, ClassVal) and getattr(bv, "enum_members", None):
+                raise PyExc("TypeError", (f"cannot extend enumeration '{bv.name}'",))
             if isinstance(bv, (ClassVal, ExtClass)):
                 if bv not in bases:
                     bases.append(bv)
@@ -353,6 +358,11 @@ class Interp:
         for hook in ("__setattr__", "__getattr__", "__getattribute__", "__delattr__", "__new__"):
             if hook in ns:
                 raise Unsupported(f"class defining {hook}")
+        if is_enum:
+            if bases:
+                raise Unsupported("enum mixed with other base classes")
+            from .models.stdlib import make_enum
+            make_enum(self, cls)
         if is_namedtuple:
             if bases:
                 raise PyExc("TypeError", ("can only inherit from a NamedTuple type and Generic",))
@@ -1131,6 +1141,17 @@ class Interp:
         raise PyExc("TypeError", (f"object {fn!r} is not callable",))
 
     def instantiate(self, cls, args, kwargs):
+        members = getattr(cls, "enum_members", None)
+        if members is not None:
+            if len(args) != 1 or kwargs:
+                raise PyExc("TypeError", (f"{cls.name}() takes exactly one value",))
+            if isinstance(args[0], Obj) and args[0] in members:
+                return args[0]
+            for m in members:
+                v = m.attrs["value"]
+                if not isinstance(v, Obj) and not isinstance(args[0], Obj) and self.truth(ops.compare(self, "Eq", v, args[0])):
+                    return m
+            raise PyExc("ValueError", (f"{ops.describe(args[0])} is not a valid {cls.name}",))
         if cls.is_protocol:
             raise PyExc("TypeError", ("Protocols cannot be instantiated",))
         h = self.hooks.get("instantiate")
